@@ -132,6 +132,46 @@ Proof.
     intros e [<-|[]]; auto.
 Qed.
 
+
+(** exact shapes of the keeper's RecvPacket outcomes *)
+Lemma recv_packet_inv2 c p pf h :
+  match recv_packet A H c p pf h with
+  | RErr _ => True
+  | RUnauth _ c1 ev =>
+      c1 = with_kv A c (set (receipt_key (p_src p) (p_dst p) (p_seq p)) receipt_val (c_kv c)) /\
+      ev = [ERecv p] /\ p_relay p = c_name c /\
+      authenticate (c_rules A c) (p_src p) (p_dst p) (p_port p) = false
+  | ROk _ c1 ev =>
+      (c1 = with_kv A c (set (receipt_key (p_src p) (p_dst p) (p_seq p)) receipt_val (c_kv c)) /\
+       ev = [ERecv p] /\ p_relay p <> c_name c) \/
+      (c1 = with_kv A c (set (commit_key (p_src p) (p_dst p) (p_seq p)) (H (p_data p))
+                          (set (receipt_key (p_src p) (p_dst p) (p_seq p)) receipt_val (c_kv c))) /\
+       ev = [ERecv p; ESend p] /\ p_relay p = c_name c /\
+       authenticate (c_rules A c) (p_src p) (p_dst p) (p_port p) = true /\
+       has (p_dst p) (c_clients A c) = true)
+  end /\
+  (recv_packet A H c p pf h <> RErr A ->
+   exists cl, lookup (if beq (p_dst p) (c_name c) && negb (is_nil (p_relay p)) then p_relay p else p_src p)
+                     (c_clients A c) = Some cl /\
+              client_active cl (c_now A c) = true /\
+              verify cl (if beq (p_dst p) (c_name c) && negb (is_nil (p_relay p)) then p_relay p else p_src p)
+                     h pf (commit_key (p_src p) (p_dst p) (p_seq p)) (H (p_data p)) = true).
+Proof.
+  unfold recv_packet.
+  destruct (validate_packet A c p) eqn:V; cbn [negb]; [|split; [exact I|congruence]].
+  unfold has. destruct (lookup (receipt_key _ _ _) (c_kv c)) eqn:R; [split; [exact I|congruence]|].
+  destruct (lookup _ (c_clients A c)) as [cl|] eqn:CL; [|split; [exact I|congruence]].
+  destruct (client_active cl (c_now A c)) eqn:AC; cbn [negb]; [|split; [exact I|congruence]].
+  destruct (verify _ _ _ _ _ _) eqn:VF; cbn [negb]; [|split; [exact I|congruence]].
+  destruct (beq (p_relay p) (c_name c)) eqn:RL.
+  - apply beq_spec in RL.
+    destruct (authenticate _ _ _ _) eqn:AU; cbn [negb].
+    + destruct (lookup (p_dst p) (c_clients A c)) eqn:HD; cbn [negb]; [|split; [exact I|congruence]].
+      split; [|intros _; exists cl; repeat split; assumption]. right. repeat split; auto.
+    + split; [|intros _; exists cl; repeat split; assumption]. repeat split; auto.
+  - apply beq_false in RL. split; [|intros _; exists cl; repeat split; assumption]. left. repeat split; auto.
+Qed.
+
 Lemma write_ack_inv c p a c' ev :
   write_ack A H c p a = Some (c', ev) ->
   a <> [] /\ ack_at c (p_src p) (p_dst p) (p_seq p) = None /\ ev = [EWriteAck p a] /\
@@ -263,6 +303,107 @@ Proof.
       * repeat split; reflexivity.
 Qed.
 
+(** what a successful receive leaves at the packet's commitment and
+    acknowledgement keys, and why it was accepted *)
+Lemma msg_recv_vals c p pf h c' ev :
+  msg_recv A H has_route on_recv c p pf h = Some (c', ev) ->
+  (commit_at c' (p_src p) (p_dst p) (p_seq p) = commit_at c (p_src p) (p_dst p) (p_seq p) \/
+   (commit_at c' (p_src p) (p_dst p) (p_seq p) = Some (H (p_data p)) /\ In (ESend p) ev /\
+    p_relay p = c_name c /\ authenticate (c_rules A c) (p_src p) (p_dst p) (p_port p) = true /\
+    has (p_dst p) (c_clients A c) = true)) /\
+  (ack_at c' (p_src p) (p_dst p) (p_seq p) = ack_at c (p_src p) (p_dst p) (p_seq p) \/
+   (exists a, ack_at c' (p_src p) (p_dst p) (p_seq p) = Some (H a) /\ In (EWriteAck p a) ev /\
+              ack_at c (p_src p) (p_dst p) (p_seq p) = None /\ a <> [])) /\
+  (In (ESend p) ev -> commit_at c' (p_src p) (p_dst p) (p_seq p) = Some (H (p_data p)) /\
+                      p_relay p = c_name c /\
+                      authenticate (c_rules A c) (p_src p) (p_dst p) (p_port p) = true) /\
+  (exists cl, lookup (if beq (p_dst p) (c_name c) && negb (is_nil (p_relay p)) then p_relay p else p_src p)
+                     (c_clients A c) = Some cl /\
+              client_active cl (c_now A c) = true /\
+              verify cl (if beq (p_dst p) (c_name c) && negb (is_nil (p_relay p)) then p_relay p else p_src p)
+                     h pf (commit_key (p_src p) (p_dst p) (p_seq p)) (H (p_data p)) = true).
+Proof.
+  unfold msg_recv. intros E.
+  destruct (N.eqb h 0); [discriminate|].
+  pose proof (recv_packet_inv2 c p pf h) as [R RV].
+  destruct (recv_packet A H c p pf h) as [|c1 ev1|c1 ev1]; [discriminate| |];
+    (specialize (RV ltac:(discriminate))).
+  - destruct R as (-> & -> & RL & AU).
+    destruct (write_ack A H _ p unauth_ack) as [[c2 ev2]|] eqn:W; [|discriminate].
+    inversion E; subst c' ev. clear E.
+    apply write_ack_inv in W. destruct W as (NE & A0 & -> & ->).
+    unfold commit_at, ack_at in *. cbn [Keeper.c_kv with_kv] in *.
+    rewrite lookup_set_neq in A0 by fam_neq.
+    split; [|split; [|split; [|exact RV]]].
+    + left. rewrite lookup_set_max_ack_other by fam_neq. rewrite lookup_set_neq by fam_neq.
+      apply lookup_set_neq. fam_neq.
+    + right. exists unauth_ack. rewrite lookup_set_max_ack_other by fam_neq. rewrite lookup_set_eq.
+      repeat split; auto. right. left. reflexivity.
+    + intros [X|[X|[]]]; discriminate X.
+  - assert (CK1 : forall a kv, lookup (commit_key (p_src p) (p_dst p) (p_seq p))
+                     (set_max_ack (p_src p) (p_dst p) (p_seq p)
+                        (set (ack_key (p_src p) (p_dst p) (p_seq p)) a kv)) =
+                   lookup (commit_key (p_src p) (p_dst p) (p_seq p)) kv).
+    { intros a kv. rewrite lookup_set_max_ack_other by fam_neq. apply lookup_set_neq. fam_neq. }
+    destruct R as [(-> & -> & RL)|(-> & -> & RL & AU & HD)]; cbn [Keeper.c_name with_kv] in E.
+    + (* no re-commit *)
+      assert (NS : forall e l, In (ESend p) ([ERecv p] ++ e :: l) -> e = ESend p \/ In (ESend p) l).
+      { intros e l [X|[X|X]]; [discriminate X | left; exact X | right; exact X]. }
+      destruct (beq (p_dst p) (c_name c)).
+      * destruct (has_route (p_port p)); [|discriminate]. cbn [negb] in E. cbn [c_app with_kv] in E.
+        destruct (on_recv (c_app A c) p) as [[a' oack]|]; [|discriminate].
+        destruct oack as [ack|].
+        -- destruct (write_ack A H _ p ack) as [[c3 ev3]|] eqn:W; [|discriminate].
+           inversion E; subst c' ev. clear E.
+           apply write_ack_inv in W. destruct W as (NE & A0 & -> & ->).
+           unfold commit_at, ack_at in *. cbn [Keeper.c_kv with_kv with_app] in *.
+           rewrite lookup_set_neq in A0 by fam_neq.
+           split; [|split; [|split; [|exact RV]]].
+           ++ left. rewrite CK1. apply lookup_set_neq. fam_neq.
+           ++ right. exists ack. rewrite lookup_set_max_ack_other by fam_neq. rewrite lookup_set_eq.
+              repeat split; auto. right. right. left. reflexivity.
+           ++ intros [X|[X|[X|[]]]]; discriminate X.
+        -- inversion E; subst c' ev. clear E.
+           unfold commit_at, ack_at. cbn [Keeper.c_kv with_kv with_app].
+           split; [|split; [|split; [|exact RV]]].
+           ++ left. apply lookup_set_neq. fam_neq.
+           ++ left. apply lookup_set_neq. fam_neq.
+           ++ intros [X|[X|[]]]; discriminate X.
+      * inversion E; subst c' ev. clear E.
+        unfold commit_at, ack_at. cbn [Keeper.c_kv with_kv].
+        split; [|split; [|split; [|exact RV]]].
+        -- left. apply lookup_set_neq. fam_neq.
+        -- left. apply lookup_set_neq. fam_neq.
+        -- intros [X|[]]; discriminate X.
+    + (* relay re-commit *)
+      destruct (beq (p_dst p) (c_name c)).
+      * destruct (has_route (p_port p)); [|discriminate]. cbn [negb] in E. cbn [c_app with_kv] in E.
+        destruct (on_recv (c_app A c) p) as [[a' oack]|]; [|discriminate].
+        destruct oack as [ack|].
+        -- destruct (write_ack A H _ p ack) as [[c3 ev3]|] eqn:W; [|discriminate].
+           inversion E; subst c' ev. clear E.
+           apply write_ack_inv in W. destruct W as (NE & A0 & -> & ->).
+           unfold commit_at, ack_at in *. cbn [Keeper.c_kv with_kv with_app] in *.
+           rewrite !lookup_set_neq in A0 by fam_neq.
+           split; [|split; [|split; [|exact RV]]].
+           ++ right. rewrite CK1. rewrite lookup_set_eq. repeat split; auto. right. left. reflexivity.
+           ++ right. exists ack. rewrite lookup_set_max_ack_other by fam_neq. rewrite lookup_set_eq.
+              repeat split; auto. right. right. right. left. reflexivity.
+           ++ intros _. rewrite CK1. rewrite lookup_set_eq. auto.
+        -- inversion E; subst c' ev. clear E.
+           unfold commit_at, ack_at. cbn [Keeper.c_kv with_kv with_app].
+           split; [|split; [|split; [|exact RV]]].
+           ++ right. rewrite lookup_set_eq. repeat split; auto. right. left. reflexivity.
+           ++ left. rewrite lookup_set_neq by fam_neq. apply lookup_set_neq. fam_neq.
+           ++ intros _. rewrite lookup_set_eq. auto.
+      * inversion E; subst c' ev. clear E.
+        unfold commit_at, ack_at. cbn [Keeper.c_kv with_kv].
+        split; [|split; [|split; [|exact RV]]].
+        -- right. rewrite lookup_set_eq. repeat split; auto. right. left. reflexivity.
+        -- left. rewrite lookup_set_neq by fam_neq. apply lookup_set_neq. fam_neq.
+        -- intros _. rewrite lookup_set_eq. auto.
+Qed.
+
 End Recv.
 
 (** AcknowledgePacket (keeper), when it succeeds *)
@@ -313,6 +454,28 @@ Proof.
       rewrite lookup_set_max_ack_other by exact k3. apply lookup_remove_neq. exact k1.
     + left. reflexivity.
     + repeat split; reflexivity.
+Qed.
+
+Lemma ack_packet_vals c p a pf h c' ev :
+  ack_packet A H c p a pf h = Some (c', ev) ->
+  (ev = [EAck p a] /\ p_relay p <> c_name c /\
+   ack_at c' (p_src p) (p_dst p) (p_seq p) = ack_at c (p_src p) (p_dst p) (p_seq p)) \/
+  (ev = [EAck p a; EWriteAck p a] /\ p_relay p = c_name c /\
+   ack_at c' (p_src p) (p_dst p) (p_seq p) = Some (H a)).
+Proof.
+  unfold ack_packet. intros E.
+  destruct (validate_packet A c p); [|discriminate]. cbn [negb] in E.
+  destruct (beq _ (H (p_data p))); [|discriminate]. cbn [negb] in E.
+  destruct (lookup _ (c_clients A c)) as [cl|]; [|discriminate].
+  destruct (client_active cl (c_now A c)); [|discriminate]. cbn [negb] in E.
+  destruct (verify _ _ _ _ _ _); [|discriminate]. cbn [negb] in E.
+  destruct (beq (p_relay p) (c_name c)) eqn:RL.
+  - destruct (has (p_src p) (c_clients A c)); [|discriminate]. cbn [negb] in E.
+    inversion E; subst c' ev. right. split; [reflexivity|]. split; [apply beq_spec; exact RL|].
+    unfold ack_at. cbn [Keeper.c_kv with_kv]. apply lookup_set_eq.
+  - inversion E; subst c' ev. left. split; [reflexivity|]. split; [apply beq_false; exact RL|].
+    unfold ack_at. cbn [Keeper.c_kv with_kv]. rewrite lookup_set_max_ack_other by fam_neq.
+    apply lookup_remove_neq. fam_neq.
 Qed.
 
 Section Ack.
